@@ -1,7 +1,84 @@
+import IofloModel.Model.Pid
 import IofloModel.Drv.Proto
-/-! driver stub (engine under construction): every request is answered "bad-op" -/
+/-!
+driver for the PID controller model (engine `pid`), stateful; the arithmetic is the binary64
+instantiation (`floatArith`), `x...` ops use `exactArith`.
+Numbers: `p/q` | `nan` | `inf` | `-inf`; stamps additionally `none`.
+  reset                                    state := init                          → ok
+  parm wrap drsp calcRate(0/1) ger gff gpe gde gie esmax esmin ovmax ovmin         → ok
+  upd stamp input rate rsp                 one `action()`                         → state line
+  restart                                  `restart()`                            → state line
+  xupd / xrestart / xreset                 same on a second state with exact arithmetic
+  region                                   1 iff zeroOutside(current parm)
+state line: `lapse elapsed prsp e er es out`, or `ERR ZeroDivisionError`
+-/
 namespace Ioflo.Drv.Pid
-def step (_ : Unit) (_ : String) : Unit × String := ((), "bad-op")
+open Ioflo.Proto Ioflo.Pid
+
+def num? (s : String) : Option Num :=
+  if s == "nan" then some .nan
+  else if s == "inf" then some .pinf
+  else if s == "-inf" then some .ninf
+  else match s.splitOn "/" with
+    | [p, q] => do
+        let p ← p.toInt?; let q ← q.toNat?
+        if q = 0 then none else pure (.fin (mkRat p q))
+    | _ => none
+
+def stamp? (s : String) : Option (Option Num) :=
+  if s == "none" then some none else (num? s).map some
+
+def showNum : Num → String
+  | .nan => "nan"
+  | .pinf => "inf"
+  | .ninf => "-inf"
+  | .fin r => toString r.num ++ "/" ++ toString r.den
+
+def showState (s : State) : String :=
+  " ".intercalate ([s.lapse, s.elapsed, s.prsp, s.e, s.er, s.es, s.out].map showNum)
+
+structure St where
+  p : Parm
+  f : State          -- binary64 arithmetic
+  x : State          -- exact arithmetic
+
+def parm0 : Parm := ⟨.fin 0, .fin 0, true, .fin 0, .fin 0, .fin 0, .fin 0, .fin 0, .fin 0, .fin 0, .fin 0, .fin 0⟩
+def st0 : St := ⟨parm0, init, init⟩
+
+def flag? (s : String) : Option Bool :=
+  if s == "1" then some true else if s == "0" then some false else none
+
+def step (σ : St) (line : String) : St × String :=
+  match words line with
+  | ["reset"] => ({ σ with f := init, x := init }, "ok")
+  | ["parm", wrap, drsp, cr, ger, gff, gpe, gde, gie, esmax, esmin, ovmax, ovmin] =>
+    match (do
+      let wrap ← num? wrap; let drsp ← num? drsp; let cr ← flag? cr; let ger ← num? ger
+      let gff ← num? gff; let gpe ← num? gpe; let gde ← num? gde; let gie ← num? gie
+      let esmax ← num? esmax; let esmin ← num? esmin; let ovmax ← num? ovmax; let ovmin ← num? ovmin
+      pure (Parm.mk wrap drsp cr ger gff gpe gde gie esmax esmin ovmax ovmin)) with
+    | some p => ({ σ with p := p }, "ok")
+    | none => (σ, "bad-op")
+  | [op, st, i, r, sp] =>
+    if op != "upd" && op != "xupd" then (σ, "bad-op") else
+    match (do
+      let st ← stamp? st; let i ← num? i; let r ← num? r; let sp ← num? sp
+      pure (st, i, r, sp)) with
+    | none => (σ, "bad-op")
+    | some (st, i, r, sp) =>
+      if op == "upd" then
+        match action floatArith σ.f st i r sp σ.p with
+        | .ok s => ({ σ with f := s }, showState s)
+        | .error _ => (σ, "ERR ZeroDivisionError")
+      else
+        match action exactArith σ.x st i r sp σ.p with
+        | .ok s => ({ σ with x := s }, showState s)
+        | .error _ => (σ, "ERR ZeroDivisionError")
+  | ["restart"] => let s := restart σ.f; ({ σ with f := s }, showState s)
+  | ["xrestart"] => let s := restart σ.x; ({ σ with x := s }, showState s)
+  | ["region"] => (σ, if zeroOutside σ.p then "1" else "0")
+  | _ => (σ, "bad-op")
+
 end Ioflo.Drv.Pid
 
-def main : IO Unit := Ioflo.Proto.loop Ioflo.Drv.Pid.step ()
+def main : IO Unit := Ioflo.Proto.loop Ioflo.Drv.Pid.step Ioflo.Drv.Pid.st0
